@@ -117,6 +117,7 @@ def enumerate_draw(ctx, label, n, fn, value_of, case, expect_missing=None, max_b
             continue
         if len(s.calls) == 1:
             counts[v] = counts.get(v, 0) + 1
+            ctx.case_sample(dict(case, first_chunk=chunk.hex(), value=v, entropy_requests=list(s.calls)))
             if v in (1, n - 1):
                 ctx.nontrivial_enum()
         else:
